@@ -742,27 +742,28 @@ func (dru *dirRepoUpload) Write(p []byte) (int, error) {
 func (dru *dirRepoUpload) Close() error {
 	dru.mu.Lock()
 	defer dru.mu.Unlock()
+	// on failures, deleting the session also removes the temp file
 	err := dru.fh.Close()
 	if err != nil {
-		return errors.Join(err, os.Remove(dru.filename))
+		return errors.Join(err, dru.dr.uploads.Delete(dru.sessionID))
 	}
 	if dru.expect != "" && dru.d.Digest() != dru.expect {
 		return errors.Join(fmt.Errorf("digest mismatch, expected %s, received %s", dru.expect, dru.d.Digest()),
-			os.Remove(dru.filename))
+			dru.dr.uploads.Delete(dru.sessionID))
 	}
 	// move temp file to blob store
 	tgtDir := filepath.Join(dru.path, blobsDir, dru.d.Digest().Algorithm().String())
 	fi, err := os.Stat(tgtDir)
 	if err == nil && !fi.IsDir() {
 		return errors.Join(fmt.Errorf("failed to move file to blob storage, %s is not a directory", tgtDir),
-			os.Remove(dru.filename))
+			dru.dr.uploads.Delete(dru.sessionID))
 	}
 	if err != nil {
 		//#nosec G301 directory permissions are intentionally world readable.
 		err = os.MkdirAll(tgtDir, 0755)
 		if err != nil {
 			return errors.Join(fmt.Errorf("unable to create blob storage directory %s: %w", tgtDir, err),
-				os.Remove(dru.filename))
+				dru.dr.uploads.Delete(dru.sessionID))
 		}
 	}
 	blobName := filepath.Join(tgtDir, dru.d.Digest().Encoded())
